@@ -22,6 +22,9 @@ RULE = (
     "leaves outside the requested sets must stay untouched on both sides; for a requested input that does not "
     "influence the outputs torchjd's zeros are compared with torch's None as zeros (C01 specifies the zeros). "
     "Non-trivial = >= 2 rows with distinct weights and >= 2 inputs/parameters. Distinct = distinct case."
+    " Also: 1/8 of the backward cases list one tensor twice (torchjd may refuse with ValueError leaving every .grad untouched, or "
+    "must agree with autograd); 1/8 of the mtl cases pass shared_params=[]; part `extreme_scales`: y = C x with |C_ij| ~ 0.45 max(dtype)/sum|w| "
+    "or ~ 8 tiny(dtype), weights such that autograd's combination is finite."
 )
 ASSUMPTIONS = ["torch.autograd is the reference; both sides run on separately built but identical graphs"]
 LEVEL_TEXT = "Generated-input differential testing against torch.autograd on twin graphs. No proof."
